@@ -442,7 +442,7 @@ function observe(src, seed, opts, names) {
   const w = new World(seed, opts);
   let completion;
   try {
-    script.runInContext(w.ctx, { timeout: TIMEOUT_MS });
+    script.runInContext(w.ctx, { timeout: TIMEOUT_MS, displayErrors: false });
     completion = { type: 'normal' };
   } catch (e) {
     if (e && e.code === 'ERR_SCRIPT_EXECUTION_TIMEOUT') return { timeout: true };
